@@ -379,14 +379,21 @@ class World:
                 os.killpg(self.server.pid, signal.SIGKILL); self.server.wait()
 
 
+import threading
+_FINAL_NAME_LOCK = threading.Lock()
+
+
 def final_name(model_path):
-    """Basename of the cache entry the current tree uses for the probe model."""
+    """Basename of the cache entry the current tree uses for the probe model.  (The worlds run in threads of this
+    process and the library's plug-in loader keeps process-wide bookkeeping while a module is being loaded: one at a
+    time.)"""
     from sasmodels import generate, kerneldll
     from sasmodels.core import load_model_info
     import numpy as np
-    info = load_model_info(model_path)
-    source = generate.make_source(info)["dll"]
-    return os.path.basename(kerneldll.dll_path(info.id + "_" + generate.tag_source(source), np.dtype("d")))
+    with _FINAL_NAME_LOCK:
+        info = load_model_info(model_path)
+        source = generate.make_source(info)["dll"]
+        return os.path.basename(kerneldll.dll_path(info.id + "_" + generate.tag_source(source), np.dtype("d")))
 
 
 def run_schedule(root, idx, sched, nproc, kill_kind="sigkill", fork=False):
